@@ -754,6 +754,12 @@ func (s *Stream) executeFunction(funcExpr string, data map[string]any) (any, err
 				return nil, err
 			}
 
+			// Check the argument count first, like the expression evaluator does: Execute
+			// indexes its arguments and would panic on a call with too few of them.
+			if err := fn.Validate(args); err != nil {
+				return nil, err
+			}
+
 			// Create function context
 			ctx := &functions.FunctionContext{Data: data}
 
